@@ -195,6 +195,8 @@ def yaml_unit(u, res):
                 ph.forces = rng.uniform(-1, 1, (len(ph.displacements), n, 3))
             else:
                 ph.dataset = {"displacements": rng.uniform(-0.03, 0.03, (7, n, 3)), "forces": rng.uniform(-1, 1, (7, n, 3))}
+            nd = len(ph.displacements)
+            ph.supercell_energies = [0.0, -12.5] + list(rng.uniform(-3, 3, nd - 2))      # an energy of exactly zero is data, not absence
             if dtype == 1:
                 ph.produce_force_constants(show_drift=False)
             else:       # type-2 datasets need symfc/ALM (not installed): give the object force constants directly
@@ -221,6 +223,17 @@ def yaml_unit(u, res):
                     f_in = ph.dataset["forces"]; f_out = y2.dataset.get("forces", np.full_like(f_in, np.nan)); d_in = ph.dataset["displacements"]; d_out = y2.dataset["displacements"]
                 ok = np.shape(f_in) == np.shape(f_out) and np.allclose(f_in, f_out, atol=1e-9) and np.allclose(d_in, d_out, atol=1e-12)
             facts.append(("type-%d: displacements and forces read back from the default dump equal those written" % dtype, bool(ok), "the displacement/force dataset read back from a default phonopy.yaml dump differs from the data that were written"))
+            ok = y2.dataset is not None
+            if ok:
+                if dtype == 1:
+                    ok = len(ph.dataset["first_atoms"]) == len(y2.dataset["first_atoms"]) and all(set(a) == set(b) and a["number"] == b["number"] and
+                                                                                                 ("supercell_energy" not in a or abs(a["supercell_energy"] - b["supercell_energy"]) < 1e-7)
+                                                                                                 for a, b in zip(ph.dataset["first_atoms"], y2.dataset["first_atoms"]))
+                    ok = ok and y2.dataset.get("natom") == ph.dataset.get("natom")
+                else:
+                    ok = set(ph.dataset) == set(y2.dataset) and np.allclose(ph.dataset["supercell_energies"], y2.dataset["supercell_energies"], atol=1e-7, rtol=0)
+            facts.append(("type-%d: every entry of the dataset (displaced atom, energies incl. an energy of 0.0) is read back with the same keys and values" % dtype, bool(ok),
+                          "the dataset read back from phonopy.yaml has other keys/values than the one written (e.g. a supercell energy of exactly 0 dropped)"))
             ok = np.abs(y2.supercell.cell - ph.supercell.cell).max() < 1e-12 and np.abs(y2.supercell.scaled_positions - ph.supercell.scaled_positions).max() < 1e-12 and \
                 np.abs(np.array(y2.supercell_matrix) - ph.supercell_matrix).max() == 0 and list(y2.unitcell.symbols) == list(ph.unitcell.symbols)
             facts.append(("type-%d: cells and supercell matrix read back as written" % dtype, bool(ok), "cells read back from phonopy.yaml differ from those written"))
